@@ -301,6 +301,158 @@ def rsort_stage(ctx, flatcc, rt):
     return {"recursive_sort_declaration_orders": len(orders), "recursive_sort_tables_checked": nD, "recursive_sort_chain_schemas": nchain}, fails
 
 
+def sortable_schema(r, n):
+    """random graph of tables and unions: some vectors marked sorted (some of them deprecated), table / union / vector-of-table /
+    vector-of-union members (some deprecated), cycles and self references, in a random declaration order.
+    Returns (fbs text, names in declaration order, per type in declaration order: dict(kind, direct, refs, sorted_members, links))"""
+    kinds = ["t" if (i == 0 or r.random() < 0.75) else "u" for i in range(n)]
+    tables = [i for i in range(n) if kinds[i] == "t"]
+    keyed = sorted(i for i in tables if r.random() < 0.3)
+    p_sorted = r.choice([0.05, 0.15, 0.4])
+    info = []
+    for i in range(n):
+        if kinds[i] == "u":
+            mem = r.sample(tables, r.randint(1, min(3, len(tables))))
+            info.append({"kind": "u", "decl": "union T%d { %s }" % (i, ", ".join("T%d" % j for j in mem)), "direct": False,
+                         "refs": list(mem), "sorted_members": [], "dep_sorted": [], "links": [("T%d" % j, j) for j in mem]})
+            continue
+        fields, refs, smem, dsm, links = [], [], [], [], []
+        if i in keyed: fields.append("k:int (key)")
+        for fi in range(r.randint(0, 5)):
+            dep = r.random() < 0.2
+            name = "f%d" % fi
+            attrs = []
+            c = r.random()
+            if c < p_sorted:
+                w = r.randrange(3)
+                if w == 2 and keyed:
+                    j = r.choice(keyed); ty = "[T%d]" % j
+                    if not dep: refs.append(j); links.append((name, j))
+                else:
+                    ty = "[int]" if w == 0 else "[string]"
+                attrs.append("sorted")
+                (dsm if dep else smem).append(name)
+            elif c < p_sorted + 0.15:
+                ty = r.choice(["int", "[int]", "string", "[string]"])
+            else:
+                j = r.randrange(n)
+                ty = "T%d" % j if r.random() < 0.5 else "[T%d]" % j
+                if not dep: refs.append(j); links.append((name, j))
+            if dep: attrs.append("deprecated")
+            fields.append("%s:%s%s" % (name, ty, " (%s)" % ", ".join(attrs) if attrs else ""))
+        info.append({"kind": "t", "decl": "table T%d { %s }" % (i, " ".join(f + ";" for f in fields)), "direct": bool(smem), "refs": refs,
+                     "sorted_members": smem, "dep_sorted": dsm, "links": links})
+    order = r.sample(range(n), n)
+    pos = {t: k for k, t in enumerate(order)}
+    fbs = "namespace SG;\n" + "\n".join(info[t]["decl"] for t in order) + "\n"
+    types = []
+    for t in order:
+        d = dict(info[t]); d["name"] = "T%d" % t
+        d["refs"] = [pos[j] for j in info[t]["refs"]]
+        d["links"] = [(nm, pos[j]) for nm, j in info[t]["links"]]
+        types.append(d)
+    return fbs, types
+
+
+SORTER_RE = re.compile(r"static void SG_(\w+)_sort\(SG_\1_mutable_(table|union)_t [tu]\)\n\{\n(.*?)\n\}\n", re.S)
+
+
+def sortable_stage(ctx, flatcc, rt):
+    """which tables / unions get a recursive sorter, and what each sorter visits: random type graphs in random declaration orders through
+    flatcc -a; the set of generated <T>_sort definitions must equal the model's markSortable (Sortable.lean: proved = reachability of a
+    sorted vector, C16_sortable_*), every sorter must sort exactly its own non-deprecated `sorted` members and descend exactly into the
+    non-deprecated members whose type has a sorter; a sample is compiled and linked with every sorter called."""
+    r = random.Random(ctx.seed * 131 + 16)
+    nsch = 160 if ctx.quick() else 2500
+    ncompile = 24 if ctx.quick() else 200
+    cases = []
+    for si in range(nsch):
+        n = r.choice([1, 2, 3, 4, 5, 6, 8, 10, 12]) if si % 4 else r.randint(8, 20)
+        fbs, types = sortable_schema(r, n)
+        cases.append((si, fbs, types))
+    lines = ["sortable " + ";".join(("d" if t["direct"] else "-") + ":" + ",".join(str(x) for x in t["refs"]) for t in types) for _, _, types in cases]
+    rc_m, out_m, err_m = run_parallel(FMODEL, lines, 8, timeout=600)
+    fails, stats = [], {"sortable_schemas": 0, "sortable_types": 0, "sortable_marked": 0, "sortable_indirect_only": 0, "sortable_compiled": 0,
+                        "sortable_max_chain": 0}
+
+    def reach_spec(types):
+        m = [t["direct"] for t in types]
+        rounds, ch = 0, True
+        while ch:
+            ch = False; rounds += 1
+            new = list(m)
+            for i, t in enumerate(types):
+                if not m[i] and any(m[j] for j in t["refs"]): new[i] = True; ch = True
+            m = new
+        return m, rounds
+
+    def one(job):
+        (si, fbs, types), mo = job
+        d = os.path.join(ctx.work, "sg%d" % si); os.makedirs(d, exist_ok=True)
+        open(os.path.join(d, "sg.fbs"), "w").write(fbs)
+        rc, log = flatcc_generate(ctx, flatcc, os.path.join(d, "sg.fbs"), d, opts=("-a",))
+        if rc != 0: return ("gen", "flatcc rejects the generated schema: " + log[-300:], fbs, None)
+        hdr = open(os.path.join(d, "sg_reader.h")).read()
+        got = {m.group(1): (m.group(2), m.group(3)) for m in SORTER_RE.finditer(hdr)}
+        if not mo.startswith("ok ") or len(mo) != 3 + len(types):
+            return ("model", "model output: " + mo[:80], fbs, None)
+        marks = [c == "1" for c in mo[3:]]
+        spec, rounds = reach_spec(types)
+        res = {"types": len(types), "marked": sum(marks), "indirect": sum(1 for t, m in zip(types, marks) if m and not t["direct"]), "rounds": rounds}
+        if spec != marks:
+            return ("model", "model markSortable %s differs from plain reachability %s" % (mo[3:], "".join("01"[x] for x in spec)), fbs, res)
+        have = [t["name"] in got for t in types]
+        if have != marks:
+            miss = [t["name"] for t, h, m in zip(types, have, marks) if m and not h]
+            extra = [t["name"] for t, h, m in zip(types, have, marks) if h and not m]
+            return ("impl", "generated sorters differ from reachability of a sorted vector: missing %s, unexpected %s (declaration order %s)"
+                    % (miss, extra, " ".join(t["name"] for t in types)), fbs, res)
+        for t, m in zip(types, marks):
+            if not m: continue
+            kind, body = got[t["name"]]
+            if kind != ("table" if t["kind"] == "t" else "union"):
+                return ("impl", "sorter of %s has the wrong parameter type" % t["name"], fbs, res)
+            if t["kind"] == "u":
+                g = sorted(re.findall(r"case SG_%s_(\w+): SG_(\w+)_sort\(u\.value\); break;" % t["name"], body))
+                e = sorted((nm, types[j]["name"]) for nm, j in t["links"] if marks[j])
+                if g != e: return ("impl", "union sorter %s descends into %s, expected %s" % (t["name"], g, e), fbs, res)
+                continue
+            g_own = sorted(re.findall(r"__flatbuffers_sort_vector_field\(SG_%s, (\w+), " % t["name"], body))
+            g_rec = sorted(re.findall(r"__flatbuffers_sort_(?:table_field|union_field|table_vector_field_elements|union_vector_field_elements)\(SG_%s, (\w+), SG_(\w+), t\)" % t["name"], body))
+            e_own = sorted(t["sorted_members"])
+            e_rec = sorted((nm, types[j]["name"]) for nm, j in t["links"] if marks[j])
+            if g_own != e_own:
+                return ("impl", "sorter of %s sorts members %s; the non-deprecated members marked sorted are %s (deprecated sorted members: %s have no accessor)"
+                        % (t["name"], g_own, e_own, t["dep_sorted"]), fbs, res)
+            if g_rec != e_rec:
+                return ("impl", "sorter of %s descends into %s, expected %s" % (t["name"], g_rec, e_rec), fbs, res)
+        if si < ncompile and any(marks):
+            c = ['#include "sg_reader.h"', "int main(void) {"]
+            for t, m in zip(types, marks):
+                if not m: continue
+                if t["kind"] == "t": c.append("  SG_%s_sort(0);" % t["name"])
+                else: c.append("  { SG_%s_mutable_union_t u = { 0, 0 }; SG_%s_sort(u); }" % (t["name"], t["name"]))
+            c.append("  return 0; }")
+            open(os.path.join(d, "prog.c"), "w").write("\n".join(c) + "\n")
+            rc, log = cc(["-std=c11", "-O0", "-Werror=implicit-function-declaration", "-I", os.path.join(REPO, "include"), "-I", d,
+                          os.path.join(d, "prog.c"), "-o", os.path.join(d, "prog")])
+            if rc != 0: return ("impl", "program calling every generated sorter does not build: " + log[-600:], fbs, res)
+            rc, out, err = sh([os.path.join(d, "prog")], timeout=30)
+            if rc != 0: return ("impl", "calling the sorters on null tables / NONE unions fails rc=%d" % rc, fbs, res)
+            res["compiled"] = 1
+        shutil.rmtree(d, ignore_errors=True)
+        return (None, None, fbs, res)
+
+    with ThreadPoolExecutor(12) as ex:
+        for kind, why, fbs, res in ex.map(one, zip(cases, out_m)):
+            stats["sortable_schemas"] += 1
+            if res:
+                stats["sortable_types"] += res["types"]; stats["sortable_marked"] += res["marked"]; stats["sortable_indirect_only"] += res["indirect"]
+                stats["sortable_compiled"] += res.get("compiled", 0); stats["sortable_max_chain"] = max(stats["sortable_max_chain"], res["rounds"])
+            if kind: fails.append((kind, why, fbs))
+    return stats, fails
+
+
 def run(ctx):
     ths = proof_stage(ctx)
     if ths is None:
@@ -336,6 +488,18 @@ def run(ctx):
     if rs_fail:
         violation(ctx, "rsort_%d.json" % ctx.seed, {"kind": "property-fails-on-implementation", "why": rs_fail[0][0][:3000], "count": len(rs_fail), "schema_fbs": rs_fail[0][1],
                                                       "more": [f[0][:200] for f in rs_fail[1:6]], "how_to_replay": "flatcc -a <schema>; build harness/rsort/rsort.c against it; run"})
+    sg_stats, sg_fail = sortable_stage(ctx, flatcc, rt)
+    sg_impl = [f for f in sg_fail if f[0] == "impl"]
+    sg_tie = [f for f in sg_fail if f[0] != "impl"]
+    if sg_impl:
+        violation(ctx, "sortable_%d.json" % ctx.seed, {"kind": "property-fails-on-implementation", "why": sg_impl[0][1][:3000], "count": len(sg_impl), "schema_fbs": sg_impl[0][2],
+                                                         "more": [f[1][:300] for f in sg_impl[1:6]],
+                                                         "how_to_replay": "flatcc -a <schema>; read the <T>_sort definitions at the end of the generated *_reader.h"})
+    elif sg_tie:
+        violation(ctx, "sortable_tie_%d.json" % ctx.seed, {"kind": "correspondence-broken", "theorems_no_longer_tied": ["Flatcc.Sortable.C16_sortable_iff_reach", "Flatcc.Sortable.C16_sortable_terminates",
+                                                             "Flatcc.Sortable.C16_sortable_order_independent"], "why": sg_tie[0][1][:3000], "count": len(sg_tie), "schema_fbs": sg_tie[0][2]},
+                  no_failing_input=True)
+    rs_stats = dict(rs_stats, **sg_stats)
     distinct = set()
     ops = {}
     for l, o in zip(lines, a):
@@ -357,5 +521,7 @@ def run(ctx):
     ctx.notes = ["string-key order theorem is for NUL-free keys; keys with embedded NUL are compared with the model's strncmp semantics only",
                  "float keys are not exercised (NaN breaks the strict-weak-order premise)",
                  "recursive table sort (codegen_c_sorter.c): a generated <Root>_sort is run on one schema rendered in several declaration orders "
-                 "(sorted vectors behind table fields, vectors of tables, unions, union vectors; unsorted vectors must stay as they are): execution only"]
+                 "(sorted vectors behind table fields, vectors of tables, unions, union vectors; unsorted vectors must stay as they are): execution only",
+                 "which types get a recursive sorter and what each sorter visits: model Sortable.lean (proved = reachability of a sorted vector, any declaration order) "
+                 "compared with the sorters generated for random type graphs (sortable_* counters)"]
     finish(ctx, ths)
